@@ -21,6 +21,7 @@ RULE = (
     "owners); distinct = sha1 of (recipe, Nproc, ...). merge: lists of 2-4 sub-meshes cut out of generated meshes "
     "(own numbering, coincident / partly coincident / disjoint nodes, with and without mergePoints), and the parts "
     "of a partition; non-trivial = at least two meshes sharing a coincident node or a partition with Nproc>=2."
+    ' Round 8: merge shifts the pieces along x or out of the plane of a 2D mesh.'
 )
 ASSUMPTIONS = [
     "MPI itself is absent (MPI_SIZE == 1): partitions are built in one process, owned dofs are taken from "
